@@ -120,50 +120,51 @@ type unsupported struct {
 }
 
 type Exec struct {
-	prog     *Program
-	sc       *Script
-	sr       *sortReg
-	frames   []*callFrame
-	obls     []*Obligation
-	notes    map[string]int
-	trusted  map[string]int
-	inlined  map[string]int
-	fnName   string
-	depth    int
-	synthN   int
-	specDone map[string]bool
-	inContract int
-	curPkg   *packages.Package
-	quiet    bool // suppress side obligations (inlined callee bodies, contract evaluation)
-	inputs   []modelReq
-	stack    []string
-	binders  int
-	nameCount map[string]int
-	pureTyped map[string]bool
-	idxStack  []*types.Var
-	mapRangeDepth int
-	ifaceAsked map[string]types.Type
-	implDone   map[string]bool
-	neutralMemo map[*types.Func]int
-	specs    map[string]*specInfo
-	visitedStack []func(*State, Term) Term
-	dry         bool // inside the dry run of a loop body (ghost-effect discovery)
-	inlineDepth int  // > 0 inside an inlined (declared) callee
-	lastIterPos string
-	lastIterDom Term
+	prog             *Program
+	sc               *Script
+	sr               *sortReg
+	frames           []*callFrame
+	obls             []*Obligation
+	notes            map[string]int
+	trusted          map[string]int
+	inlined          map[string]int
+	fnName           string
+	depth            int
+	synthN           int
+	specDone         map[string]bool
+	inContract       int
+	curPkg           *packages.Package
+	quiet            bool // suppress side obligations (inlined callee bodies, contract evaluation)
+	inputs           []modelReq
+	stack            []string
+	binders          int
+	nameCount        map[string]int
+	pureTyped        map[string]bool
+	idxStack         []*types.Var
+	preEval map[ast.Expr]Val
+	mapRangeDepth    int
+	ifaceAsked       map[string]types.Type
+	implDone         map[string]bool
+	neutralMemo      map[*types.Func]int
+	specs            map[string]*specInfo
+	visitedStack     []func(*State, Term) Term
+	dry              bool // inside the dry run of a loop body (ghost-effect discovery)
+	inlineDepth      int  // > 0 inside an inlined (declared) callee
+	lastIterPos      string
+	lastIterDom      Term
 	pendingHeapNames map[string]bool
-	pendingPos token.Pos
-	heapSorts map[string]string
-	lastHeapNames map[string]bool // heaps written (only) through contracts with modifies lists, from the last assignedIn
+	pendingPos       token.Pos
+	heapSorts        map[string]string
+	lastHeapNames    map[string]bool // heaps written (only) through contracts with modifies lists, from the last assignedIn
 }
 
 func (e *Exec) fail(pos token.Pos, format string, a ...any) {
 	panic(unsupported{fmt.Sprintf(format, a...), pos})
 }
 
-func (e *Exec) note(s string)    { e.notes[s]++ }
-func (e *Exec) trust(s string)   { e.trusted[s]++ }
-func (e *Exec) top() *callFrame  { return e.frames[len(e.frames)-1] }
+func (e *Exec) note(s string)     { e.notes[s]++ }
+func (e *Exec) trust(s string)    { e.trusted[s]++ }
+func (e *Exec) top() *callFrame   { return e.frames[len(e.frames)-1] }
 func (e *Exec) info() *types.Info { return e.top().pkg.TypesInfo }
 
 func (e *Exec) posStr(p token.Pos) string {
@@ -674,13 +675,24 @@ func (e *Exec) deferStmt(st *State, s *ast.DeferStmt) {
 			return true
 		})
 	}
+	// the argument expressions themselves are evaluated now (including any calls they contain)
+	pre := map[ast.Expr]Val{}
 	for _, a := range call.Args {
-		grab(a)
+		if _, isLit := ast.Unparen(a).(*ast.FuncLit); isLit {
+			continue
+		}
+		pre[a] = e.ev(st, a)
+		if st.dead {
+			return
+		}
 	}
 	if sel, ok := ast.Unparen(call.Fun).(*ast.SelectorExpr); ok {
 		grab(sel.X)
 	}
 	f.defers = append(f.defers, func(st2 *State) {
+		savedPre := e.preEval
+		e.preEval = pre
+		defer func() { e.preEval = savedPre }()
 		saved := map[types.Object]*Val{}
 		for o, v := range snap {
 			if cur, ok := st2.vars[o]; ok {
@@ -1118,12 +1130,12 @@ func (e *Exec) recordSliceWrite(st *State, base Val, pos token.Pos) {
 // loops
 
 type loopInfo struct {
-	key      string
-	invs     []*Clause
-	assigned map[types.Object]bool
-	heapW    bool
+	key       string
+	invs      []*Clause
+	assigned  map[types.Object]bool
+	heapW     bool
 	heapNames map[string]bool
-	pos      token.Pos
+	pos       token.Pos
 }
 
 func (e *Exec) loopKeyFor(node ast.Node, header string) (ord string, hdr string) {
